@@ -20,6 +20,9 @@ type histWorld struct {
 
 func (w *histWorld) Gen(seed uint64, tier string) *Plan {
 	r := NewRng(seed)
+	if scaleKinds[w.prop] != nil && r.P(1, 800) {
+		return genScale(r, w.prop)
+	}
 	cfg := genCfg(r, w.kinds, tier)
 	nOps := []int{10, 20, 40, 40, 80, 120, 200, 400}[r.Intn(8)]
 	if tier == "thorough" && r.P(1, 5) {
@@ -32,7 +35,11 @@ func (w *histWorld) Gen(seed uint64, tier string) *Plan {
 			cfg.Dom = []int{64, 256, 1024, 1024, 4096}[r.Intn(5)]
 		}
 		nOps = cfg.Dom * r.Range(2, 4)
+		if kvIsBidi(cfg.Kind) && r.Bool() {
+			cfg.VDom = min(cfg.Dom, 1024) // many distinct values: the inverse index grows with the map
+		}
 	}
+	hugeFill := 0
 	big := !w.bigN && !w.c15 && r.P(1, 40)
 	if big {
 		// large-size runs: hundreds to thousands of elements, state comparison every 16th step
@@ -42,6 +49,24 @@ func (w *histWorld) Gen(seed uint64, tier string) *Plan {
 		if tier != "thorough" {
 			nOps = min(nOps, 1500)
 		}
+	}
+	if !big && !w.bigN && !w.c15 && !w.count && (familyOf(cfg.Kind) == "list" || familyOf(cfg.Kind) == "set" || familyOf(cfg.Kind) == "sq") && cfg.Elem != "item" && r.P(1, 400) {
+		// a huge run: tens of thousands of elements in one bulk step, then a short history compared sparsely
+		big = true
+		cfg.Mode = "big"
+		cfg.Dom = 65536
+		nOps = r.Range(100, 260)
+		hugeFill = r.Range(20_000, 60_000)
+	}
+	if cfg.Kind == "circularbuffer" && !w.bigN && !w.count && hugeFill == 0 && r.P(1, 10) {
+		// a large ring, filled to (about) its capacity in one step: the wrap-around arithmetic and whatever
+		// depends on the capacity are then exercised where they differ from the tiny rings of the other runs
+		cfg.Cap = []int{1024, 1500, 2048, 4096}[r.Intn(4)]
+		cfg.Dom = 1024
+		cfg.Mode = "big"
+		big = true
+		nOps = r.Range(60, 200)
+		hugeFill = cfg.Cap + []int{0, 0, 0, -1, 1, 37}[r.Intn(6)]
 	}
 	if familyOf(cfg.Kind) == "heap" && cfg.Dom > 64 {
 		cfg.Dom = 64
@@ -83,6 +108,12 @@ func (w *histWorld) Gen(seed uint64, tier string) *Plan {
 	}
 	ci, burst := 0, 0
 	for id := 0; id < nOps; id++ {
+		if id == 0 && hugeFill > 0 {
+			op := Op{ID: 0, N: "Fill", A: []int{hugeFill, r.Intn(1000)}}
+			s.ModelApply(op)
+			p.Ops = append(p.Ops, op)
+			continue
+		}
 		switch cfg.Strat {
 		case "random":
 			ci = r.Intn(nClients)
@@ -144,7 +175,17 @@ func genArrayLoad(r *Rng, id int, s Subject) Op {
 }
 
 func (w *histWorld) Exec(p *Plan, st *RunStats) *Violation {
+	if p.World == "scale" {
+		return execScale(p, st, w.prop)
+	}
 	attach(p)
+	if p.Cfg.Dom > 4096 {
+		// huge runs: one step (operation + state comparison over tens of thousands of elements)
+		// legitimately passes far more yield sites than the bound that fits the ordinary sizes
+		saveLimit := stepLimit
+		stepLimit = 100 * saveLimit
+		defer func() { stepLimit, opSteps = saveLimit, 0 }()
+	}
 	start := stepCount
 	s := makeSubject(p.Cfg, w.count)
 	o := NewOracle(w.prop, w.tags...)
@@ -207,6 +248,11 @@ func (w *histWorld) Exec(p *Plan, st *RunStats) *Violation {
 		if h, ok := s.(interface{ FinalCheck(*Oracle) }); ok {
 			safely(o, Op{ID: -1, N: "FinalCheck"}, func() { h.FinalCheck(o) })
 		}
+	}
+	if !o.Failed() && p.Cfg.Ctor == "default" && !w.count && o.Active[w.prop] {
+		// the default constructor is generic over every ordered type: other instantiations of the same kind
+		probe := Op{ID: -1, N: "NewOverOtherOrderedTypes"}
+		safely(o, probe, func() { o.cur = probe; typedCtorProbe(o, w.prop, p.Cfg.Kind, int(p.Cfg.MapSeed>>33)) })
 	}
 	if !o.Failed() {
 		if h, ok := s.(interface{ FinalDrain(*Oracle) }); ok && o.Active["C06"] {
